@@ -614,6 +614,19 @@ impl BinArchive {
         validate_address(address, self.size(), true)?;
         validate_alignment(address, 4)?;
         validate_alignment(amount_in_bytes, 4)?;
+        // Reject the request before anything is changed unless the whole relocation is representable: the new
+        // size must be a valid vector length and every pointer target that moves must stay inside usize.
+        let fits = self
+            .size()
+            .checked_add(amount_in_bytes)
+            .map_or(false, |new_size| new_size <= isize::MAX as usize)
+            && self.pointers.values().all(|destination| {
+                !(*destination > address || (*destination >= address && ge))
+                    || destination.checked_add(amount_in_bytes).is_some()
+            });
+        if !fits {
+            return Err(ArchiveError::OutOfBoundsAddress(address, self.size()));
+        }
         let bytes_to_insert: Vec<u8> = vec![0; amount_in_bytes];
         self.data
             .splice(address..address, bytes_to_insert.iter().cloned());
